@@ -23,10 +23,11 @@ type seen struct {
 	params map[string]string
 	byGet  map[string]string
 	n      int
+	mutate bool
 }
 
 func build(tb *model.Table, s *seen) *rux.Router {
-	r := rux.New(tb.Opts.Rux()...)
+	r := tb.Opts.NewRouter()
 	model.Register(r, tb.Routes, func(d model.RouteDef) rux.HandlerFunc {
 		name := d.Name()
 		names := d.P.VarNames()
@@ -40,6 +41,13 @@ func build(tb *model.Table, s *seen) *rux.Router {
 			s.byGet = map[string]string{}
 			for _, n := range names {
 				s.byGet[n] = c.Param(n)
+			}
+			// what a handler does to its own Params afterwards must not reach any later request
+			if s.mutate && c.Params != nil {
+				for k := range c.Params {
+					c.Params[k] = "overwritten-by-an-earlier-handler"
+				}
+				c.Params["added-by-an-earlier-handler"] = "x"
 			}
 		}
 	})
@@ -120,12 +128,16 @@ func prop(t *rapid.T) {
 		tb.Opts.CacheCap = rapid.IntRange(0, 3).Draw(t, "cap")
 	}
 	tb.Opts.Fallback = rapid.IntRange(0, 4).Draw(t, "fallback") == 0
+	tb.Opts.Via, tb.Opts.Order = model.GenVia(t), model.GenOrder(t)
 	cfg := model.TableCfg{MaxRoutes: ev.Pick(4, 8), Gen: model.GenCfg{MaxSegs: ev.Pick(4, 5), MaxOpt: ev.Pick(2, 3), RichLits: true}, Fallback: tb.Opts.Fallback}
 	tb.Routes = model.GenRoutes(t, cfg, tb.Opts.Strict)
 	if len(tb.Routes) == 0 {
 		t.Skip("empty table")
 	}
-	s := &seen{}
+	s := &seen{mutate: rapid.Bool().Draw(t, "handlersMutateParams")}
+	if s.mutate {
+		ev.Class("handlers-mutate-their-params")
+	}
 	r := build(tb, s)
 	np := rapid.IntRange(1, 8).Draw(t, "nprobes")
 	for i := 0; i < np; i++ {
